@@ -313,7 +313,7 @@ def main():
     WIDENED = {
         "C02": " Shapes up to 200 rows / 17 columns; vectors and matrix rows that cancel exactly; a prepared matrix applied twice.",
         "C03": " An inverse transform as the first transform of a fresh process; life cycles of several live NTT120 modules up to N = 2048 (8192).",
-        "C04": " Worst-case products at every length 0..130 and around the powers of two; short products on half-word-boundary operands.",
+        "C04": " Worst-case products at every length 0..130 and around the powers of two; short products on half-word-boundary operands; every low half-word product at its maximum; every three-term product of half-word extremes.",
         "C05": " Carry chains over 65..136 dropped limbs through the plain, big and range entry points; volumes up to 65536 x 18 and 16384 x 70; "
                "the primitive on lengths 3..24.",
         "C06": " Every dimension up to 2^18; the transforms under a 4 kHz stream of signals to the computing thread.",
@@ -321,7 +321,7 @@ def main():
         "C08": " One-limb operands with stride 0; volumes of 2^22 coefficients and more with every limb compared with the call on that limb "
                "alone; limb strides of 2^29..2^32 coefficients in a sparse mapping; objects of more than 4 GiB (thorough).",
         "C09": " Kernels up to N = 2^21; exponents p, p+N, p+2N back to back; in-place wrapper calls with unequal sizes, compaction and clearing.",
-        "C10": " The same buffer passed as both operands; half-word-boundary operands.",
+        "C10": " The same buffer passed as both operands; half-word-boundary operands; every three-term product of half-word extremes.",
         "C12": " The built library is scanned for non-temporal stores without a fence (advisory).",
         "C13": " Overlay.tla decides which in-buffer layouts are well defined (rule checked against the loop on a buffer of cells for every layout "
                "of a box, an illegal layout that ends wrong as witness); the legal layouts - compaction, compaction and clearing, vectors sharing "
@@ -333,7 +333,7 @@ def main():
                "every table-level call also under round-down / round-up (control state left as found); every other library call entered with "
                "all sticky exception flags raised.",
         "C17": " Row counts up to 65 (129), rows that are exactly zero, convolution operands up to 300 (1000) groups, pointwise vectors of 16384 / "
-               "65536 numbers with one alignment class per operand, subnormal values in either operand.",
+               "65536 numbers with one alignment class per operand, subnormal values in either operand; extraction with rows 16..32 GiB apart and from 16384 / 20000 rows.",
     }
     for pid in ALL:
         c = CLAIMED.get(pid)
